@@ -219,3 +219,8 @@ package dialer
 //@ func (*Dialer).MustGetAlive
 //@   pure
 //@   trusted
+
+//@ func (*Dialer).Property
+//@   pure
+//@   trusted
+//@   ensures result != nil
